@@ -582,3 +582,14 @@ Proof.
   - apply H1. reflexivity.
   - apply H2. lia.
 Qed.
+
+(** the same, from the user-closure contract, outside F12, for a registered callsite *)
+Theorem stack_never_full : forall c m cx,
+  CLeafOK c -> c_f12 c m = false -> CRegistered c m cx ->
+  c_interest c m = never -> deliver c m cx = [].
+Proof. intros c m cx HL H12 HR. apply stack_never. apply CSound_of; assumption. Qed.
+
+Theorem stack_always_full : forall c m cx,
+  CLeafOK c -> c_f12 c m = false -> CRegistered c m cx -> c_f82 c m = false ->
+  c_interest c m = always -> deliver c m cx = c_all c.
+Proof. intros c m cx HL H12 HR. apply stack_always. apply CSound_of; assumption. Qed.
